@@ -100,7 +100,7 @@ theorem slidesLen_le (s : BitVec 32) : Slides.len s ≤ 8 := by
     | succ n ih => intro s; simp only [slideElems]; split <;> simp; exact ih _
   exact h 8 s
 
-private theorem ofNat8_eq (a b : Nat) (ha : a < 256) (hb : b < 256) : (BitVec.ofNat 8 a == BitVec.ofNat 8 b) = (a == b) := by
+theorem ofNat8_eq (a b : Nat) (ha : a < 256) (hb : b < 256) : (BitVec.ofNat 8 a == BitVec.ofNat 8 b) = (a == b) := by
   by_cases h : a = b
   · subst h; simp
   · have : ¬ (BitVec.ofNat 8 a = BitVec.ofNat 8 b) := by
